@@ -14,6 +14,7 @@ def unit(name, alias, rx, names=None, names_opt=None, boundary=(), types=None, *
              spec=['C07/m_spec.h', 'C07/h_m.c'], harness='h_' + name, enforce=alias, under_contract=[rx.strip('^$').replace('\\', '')])
     d.update(kw)
     return d
+MXAW = r'^cocls::co_awaiter<cocls::mutex>::'
 UNITS = [
     unit('ready', 'mx_ready', r'^cocls::mutex::ready\(\)$'),
     unit('subscribe', 'mx_subscribe', r'^cocls::mutex::subscribe\(cocls::awaiter\*\)$', names_opt={'aw_subscribe': AWSUB, 'mx_build_queue': BQ}, boundary=[BQ], loop_contracts=True, defines=['CV_HAS_mx_build_queue_stub 1'],
@@ -24,6 +25,9 @@ UNITS = [
     unit('own_release', 'own_release', r'^cocls::mutex::ownership::release\(\)$', names_opt={'mx_unlock_rel_stub': UNL_REL}, boundary=[UNL_REL], types={'OWNT': 'cocls::mutex::ownership'}, ptypes={'LAMREL': UNL_REL + '#1'}, lib=['rt_core.c', 'rt_atomic_seq.c']),
     unit('own_dtor', 'own_dtor', r'^cocls::mutex::ownership::~ownership\(\)$', names_opt={'mx_unlock_del_stub': UNL_DEL}, boundary=[UNL_DEL], types={'OWNT': 'cocls::mutex::ownership'}, ptypes={'LAMDEL': UNL_DEL + '#1'}, lib=['rt_core.c', 'rt_atomic_seq.c']),
     unit('try_lock', 'mx_try_lock', r'^cocls::mutex::try_lock\(\)$', names_opt={'mx_ready_stub': r'^cocls::mutex::ready\(\)$'}, boundary=[r'^cocls::mutex::ready\(\)$'], types={'OWNT': 'cocls::mutex::ownership'}, lib=['rt_core.c', 'rt_atomic_seq.c']),
+    unit('mxaw_ready', 'mxaw_ready', MXAW + r'await_ready\(\)$', names_opt={'g_ready_stub': r'^cocls::mutex::ready\(\)$'}, boundary=[r'^cocls::mutex::ready\(\)$'], types={'MXAW': 'cocls::co_awaiter<cocls::mutex>'}, lib=['rt_core.c', 'rt_atomic_seq.c']),
+    unit('mxaw_suspend', 'mxaw_suspend', MXAW + r'await_suspend\(std::__n4861::coroutine_handle<void>\)$', names_opt={'g_subscribe_stub': r'^cocls::mutex::subscribe\(cocls::awaiter\*\)$'}, boundary=[r'^cocls::mutex::subscribe\(cocls::awaiter\*\)$'], types={'MXAW': 'cocls::co_awaiter<cocls::mutex>'}, lib=['rt_core.c', 'rt_atomic_seq.c']),
+    unit('mxaw_resume', 'mxaw_resume', MXAW + r'await_resume\(\)$', types={'MXAW': 'cocls::co_awaiter<cocls::mutex>', 'OWNT': 'cocls::mutex::ownership'}, lib=['rt_core.c', 'rt_atomic_seq.c']),
 ] + [
     dict(name='build_queue_bounded_%s' % t, driver='c07_mutex.cpp', roots=[BQ], names={'mx_build_queue': BQ}, types=TYPES, globals=GLOBALS, boundary=[], lib=['rt_core.c', 'rt_atomic_seq.c'],
          spec=['C07/m_spec_min.h', 'C07/h_bq_bounded.c'], harness='h_bq_bounded', defines=['BQ_N %d' % n], unwind=n + 2, bounded='request chains of 0..%d nodes, every bottom (doorman / NULL / own request as stop)' % n,
@@ -33,7 +37,7 @@ UNITS = [
 META = dict(
     level='proof',
     level_text='mutex::ready (try-lock), mutex::subscribe (request push incl. its CAS retry loop), mutex::unlock<Fn> (both instantiations) are verified thread-modularly over protocol M: at every atomic step the environment may do whatever the protocol allows (while I own the mutex others only push requests; otherwise the cell may hold anything), and a request pushed onto a held mutex belongs to the holder from that instant (its link is havocked at once). Contracts from the property: try-lock granted <=> the token was taken and the cell was NULL at that instant; subscribe not-suspended <=> the mutex was free at the instant of the push (then exactly one build_queue with the own request as stop), suspended <=> node handed to the holder and never looked at again; unlock: exactly one of {cell doorman->NULL with nothing pending, hand-over to the head of the private arrival-ordered queue by exactly one call of the functor}, queue refilled only when empty. ownership::release / ~ownership / try_lock are forwarder units (exactly one unlock / none when empty). build_queue (list reversal) is bounded: FIFO arrival order, stop node never dereferenced.',
-    level_note='Trusted: protocol-M primitives and their rely (lib/rt_atomic_protM.c), rely/guarantee soundness argument, abstract callees (build_queue inside subscribe/unlock units, the resume functor, unlock inside ownership units), clang front end, ir2c. Bounded: build_queue N=5/8. Not covered: liveness (a request is eventually granted), co_awaiter<mutex> glue (await_suspend = set_handle + subscribe), mutex destructor. Genuine defect found and fixed: a0e1620 (see known_findings.json).',
+    level_note='Trusted: protocol-M primitives and their rely (lib/rt_atomic_protM.c), rely/guarantee soundness argument, abstract callees (build_queue inside subscribe/unlock units, the resume functor, unlock inside ownership units), clang front end, ir2c. Bounded: build_queue N=5/8. co_awaiter<mutex> glue is covered by forwarder units (await_ready = one try-lock, await_suspend = node carries the coroutine before exactly one subscribe, await_resume = ownership of the awaited mutex). Not covered: liveness (a request is eventually granted), mutex destructor. Genuine defect found and fixed: a0e1620 (see known_findings.json).',
     technique='CBMC code contracts + loop contracts via goto-instrument --dfcc on the C translation of clang IR of mutex.h; atomic instructions replaced by rely/guarantee protocol primitives with ghost token/ownership; bounded unwinding for the list reversal; schedule replay through a guarded sync hook',
     trusted_base=['protocol-M atomic primitives and environment model (lib/rt_atomic_protM.c)', 'abstract callees recorded in ghost state (specs/C07/m_spec.h)'],
     assumptions=['rely/guarantee soundness (argued, DESIGN 3.5)', 'atomic RMWs on one location are totally ordered', 'build_queue: bounded(N) chain length'],
